@@ -87,6 +87,7 @@ func (o Op) String() string {
 // Result describes what one op did.
 type Result struct {
 	Err      string   // "" or error kind / text
+	ErrText  string   // full error message (diagnosis)
 	IDs      []uint64 // allocated ids
 	Skipped  bool     // op not applicable in current state
 	Panicked bool
@@ -121,6 +122,9 @@ type Engine struct {
 	// Attempt: the state a failed Commit tried to commit (nil if none since the last successful
 	// commit). After a reopen the file may legitimately show it when the failure was the final sync.
 	Attempts []State
+
+	// LastErrText: full text of the last Commit error
+	LastErrText string
 
 	// LastID: the page id the last operation with a logical page index resolved to
 	LastID uint64
@@ -709,6 +713,7 @@ func (e *Engine) apply(op Op) Result {
 		e.Disk.Marker("commit-begin")
 		err := e.Tx.Commit()
 		if err != nil {
+			e.LastErrText = fmt.Sprintf("%+v", err)
 			e.Disk.Marker("commit-fail")
 			att := e.Committed.Clone()
 			for id := range e.txFreed {
@@ -793,6 +798,9 @@ func (e *Engine) apply(op Op) Result {
 		return Result{}
 
 	case "rread":
+		// (the disk hook of some campaigns verifies the readers from the writer goroutine: same lock)
+		e.rmu.Lock()
+		defer e.rmu.Unlock()
 		if len(e.readers) == 0 {
 			return Result{Skipped: true}
 		}
@@ -801,6 +809,8 @@ func (e *Engine) apply(op Op) Result {
 		return Result{}
 
 	case "rclose":
+		e.rmu.Lock()
+		defer e.rmu.Unlock()
 		if len(e.readers) == 0 {
 			return Result{Skipped: true}
 		}
